@@ -406,9 +406,9 @@ PY_CONFIRM.update({'c14': confirm_claims_roundtrip})
 def run_native_features(features, proto=None):
     """builds /verif/replay_cfg against the working tree with exactly `features` and runs the round trip of the enabled protocols"""
     import subprocess
-    tgt = os.path.join(build.CACHE, 'tgt-replay-cfg')
+    src, tgt = build.crate_for_repo('replay_cfg')
     with build.Lock('replaycfg'):
-        p = subprocess.run(['cargo', 'run', '--offline', '--quiet', '--no-default-features', '--features', features], cwd=os.path.join(build.VERIF, 'replay_cfg'),
+        p = subprocess.run(['cargo', 'run', '--offline', '--quiet', '--no-default-features', '--features', features], cwd=src,
                            env=dict(build.ENV, CARGO_TARGET_DIR=tgt), capture_output=True, text=True, timeout=900)
     lines = [l for l in p.stdout.split('\n') if l.strip()]
     if p.returncode not in (0, 1) or (p.returncode == 1 and not any('FAIL' in l for l in lines)):
